@@ -25,7 +25,8 @@ def hex? (t : String) : Option (List Nat) := if t = "-" then some [] else bytes?
 
 /-- unicodeIDContinue for non-ASCII code points: not modelled (generators never escape such a
     character); Latin-1 letters are answered correctly for robustness. -/
-def idc (c : Nat) : Bool := (0xC0 ≤ c ∧ c ≤ 0xFF ∧ c ≠ 0xD7 ∧ c ≠ 0xF7) ∨ c = 0xAA ∨ c = 0xB5 ∨ c = 0xBA
+def idc (c : Nat) : Bool := (0xC0 ≤ c ∧ c ≤ 0xFF ∧ c ≠ 0xD7 ∧ c ≠ 0xF7) ∨ c = 0xAA ∨ c = 0xB5 ∨ c = 0xBA ∨
+  c = 0x212A ∨ c = 0x212B ∨ c = 0x17F ∨ c = 0x39C ∨ c = 0x3BC ∨ c = 0x178
 
 /-! ## the concrete engines -/
 
@@ -78,7 +79,7 @@ def buildModel (pat flags : List Nat) : Built Re :=
       match parsePattern true gp with
       | .err => .error
       | .opaque => .opaque
-      | .ok r => .ok g { es5 := false, icase := i, multiline := mm } r
+      | .ok r => if goRepeatOk r then .ok g { es5 := false, icase := i, multiline := mm } r else .error
 
 /-- ES5: §15.10.4.1 + the property's "unsupported constructs are rejected" -/
 def buildSpec (pat flags : List Nat) : Built Re :=
@@ -175,7 +176,8 @@ def devNew (pat flags : List Nat) : List String :=
     | .ok r =>
       (if Re.any (fun | .set _ [] => true | _ => false) r then ["empty_class"] else []) ++
       (if r.unsupported ∧ hasOctalBackref pat then ["backref_octal"] else []) ++
-      (if Re.any (fun | .quant _ q _ => decide (q.min > 1000) || (match q.max with | some k => decide (k > 1000) | none => false) | _ => false) r then ["repeat_limit"] else [])
+      (if Re.any (fun | .quant _ q _ => decide (q.min > 1000) || (match q.max with | some k => decide (k > 1000) | none => false) | _ => false) r ∨ !goRepeatOk r then ["repeat_limit"] else []) ++
+      (if Re.any (fun | .quant _ (.rep n) _ | .quant _ (.repFrom n) _ => leadZero n | .quant _ (.repRange n k) _ => leadZero n || leadZero k | _ => false) r then ["repeat_leading_zero"] else [])
     | _ => ["lenient_syntax"]
   fl ++ pt
 
